@@ -356,7 +356,7 @@ Fixpoint resources_agree_b (l : list (nat * id)) : bool :=
   end.
 
 (** * Used-type provenance *)
-Fixpoint sites_of (l : list ev) : list (owner * str * vid * vid) :=
+Fixpoint sites_of (l : list ev) : list (owner * str * vid * vid)%type :=
   match l with
   | [] => []
   | EvSite o n rf cr :: r => (o, n, rf, cr) :: sites_of r
@@ -365,36 +365,50 @@ Fixpoint sites_of (l : list ev) : list (owner * str * vid * vid) :=
 Definition site_seen (o : owner) (n : str) (seen : list (owner * str)) : bool :=
   existsb (fun p => owner_eqb o (fst p) && str_eqb n (snd p)) seen.
 
-(** The origin of a referenced type: the nearest identifier on its alias chain (itself first) that is the
-    created identifier of an ORIGINAL site; a site is original when the type it references has no origin
-    among the sites before it; the created identifier of a non-original site has the origin of the type it references.  Sites are taken in traversal order; a site met again (the same instance
-    type reached twice) counts once.  The result lists, per owner, the expected [uses] entries in order. *)
-Fixpoint expected_uses (fuel : nat) (g : vgraph) (sites : list (owner * str * vid * vid))
-         (seen : list (owner * str)) (origins : list (vid * (owner * str)))
-  : option (list (owner * (str * used))) :=
-  match sites with
-  | [] => Some []
-  | (o, n, rf, cr) :: rest =>
-    if site_seen o n seen then expected_uses fuel g rest seen origins
-    else
-      match find_owner fuel g origins rf with
-      | None => None
-      | Some None => expected_uses fuel g rest ((o, n) :: seen) ((cr, (o, n)) :: origins)
-      | Some (Some (other, orig)) =>
-        match expected_uses fuel g rest ((o, n) :: seen)
-                (match nassoc cr origins with Some _ => origins | None => (cr, (other, orig)) :: origins end) with
-        | None => None
-        | Some l =>
-          match other with
-          | OwIface i => if owner_eqb o other then Some l
-                         else Some ((o, (n, (i, if str_eqb n orig then None else Some orig))) :: l)
-          | OwWorld _ => Some l
-          end
-        end
-      end
+(** ** The first-owner rule, over the type items in the order in which they are met.
+
+    State: [u_origins] maps a validator identifier to the item that OWNS the type ((interface or component type,
+    item name)); [u_entries] are the [use] entries decided so far, oldest first.
+    A type item (o, n, rf, cr) -- owner [o], name [n], referenced identifier [rf], created identifier [cr]:
+    - if no identifier on the alias chain of [rf] ([rf] itself first) has an origin, the item is ORIGINAL: [cr] gets the
+      origin (o, n); no entry;
+    - otherwise let (other, orig) be the origin of the nearest such identifier: [cr] gets the same origin (unless it has
+      one), and an entry  n -> (other, orig when it differs from n)  is recorded for [o] exactly when [other] is an
+      interface different from [o] (nothing for a type the owner owns itself, nothing when the origin is a component type). *)
+Definition usite := (owner * str * vid * vid)%type.
+Record ust := mkust { u_origins : list (vid * (owner * str)); u_entries : list (owner * (str * used)) }.
+Definition ust0 : ust := mkust [] [].
+Definition use_entry (o : owner) (n : str) (other : owner) (orig : str) : list (owner * (str * used)) :=
+  match other with
+  | OwIface i => if owner_eqb o other then [] else [(o, (n, (i, if str_eqb n orig then None else Some orig)))]
+  | OwWorld _ => []
   end.
+Definition site_step (fuel : nat) (g : vgraph) (st : ust) (x : usite) : option ust :=
+  let '(o, n, rf, cr) := x in
+  match find_owner fuel g (u_origins st) rf with
+  | None => None
+  | Some None => Some (mkust ((cr, (o, n)) :: u_origins st) (u_entries st))
+  | Some (Some (other, orig)) =>
+    Some (mkust (match nassoc cr (u_origins st) with Some _ => u_origins st | None => (cr, (other, orig)) :: u_origins st end)
+                (u_entries st ++ use_entry o n other orig))
+  end.
+Fixpoint replay (fuel : nat) (g : vgraph) (sites : list usite) (st : ust) : option ust :=
+  match sites with
+  | [] => Some st
+  | x :: r => match site_step fuel g st x with Some st' => replay fuel g r st' | None => None end
+  end.
+
+(** a site met again (the joint traversal reaches the same instance type twice; the conversion does not) counts once *)
+Fixpoint dedupe (sites : list usite) (seen : list (owner * str)) : list usite :=
+  match sites with
+  | [] => []
+  | (o, n, rf, cr) :: r => if site_seen o n seen then dedupe r seen else (o, n, rf, cr) :: dedupe r ((o, n) :: seen)
+  end.
+Definition expected_uses (fuel : nat) (g : vgraph) (sites : list usite) : option (list (owner * (str * used))) :=
+  option_map u_entries (replay fuel g (dedupe sites []) ust0).
+(** the entries of one owner, as the [IndexMap] they are inserted into *)
 Definition uses_for (o : owner) (l : list (owner * (str * used))) : list (str * used) :=
-  map snd (filter (fun p => owner_eqb o (fst p)) l).
+  fold_left (fun acc p => if owner_eqb o (fst p) then imap_insert (fst (snd p)) (snd (snd p)) acc else acc) l [].
 Definition used_eqb (a b : str * used) : bool :=
   str_eqb (fst a) (fst b) && id_eqb (fst (snd a)) (fst (snd b))
   && match snd (snd a), snd (snd b) with
@@ -414,3 +428,86 @@ Fixpoint check_from {A} (f : nat -> A -> bool) (n : nat) (l : list A) : bool :=
 Definition uses_agree_b (t : types) (l : list (owner * (str * used))) : bool :=
   check_from (fun n x => list_eqb used_eqb (i_uses x) (uses_for (OwIface (mkid (t_tag t) n)) l)) 0 (t_interfaces t)
   && check_from (fun n x => list_eqb used_eqb (w_uses x) (uses_for (OwWorld (mkid (t_tag t) n)) l)) 0 (t_worlds t).
+
+(** * Well-typedness of the validator graph (an assumption about the oracle, checked on every case by the driver)
+
+    Every reference of a node points to a node of the expected sort, item names are unique inside an instance type and
+    inside the import / export list of a component type. *)
+Definition is_def (g : vgraph) (v : vid) : bool := match node_of g v with Some (NDef _) => true | _ => false end.
+Definition is_func (g : vgraph) (v : vid) : bool := match node_of g v with Some (NFunc _ _ _) => true | _ => false end.
+Definition is_inst (g : vgraph) (v : vid) : bool := match node_of g v with Some (NInst _) => true | _ => false end.
+Definition is_comp (g : vgraph) (v : vid) : bool := match node_of g v with Some (NComp _ _) => true | _ => false end.
+Definition is_mod (g : vgraph) (v : vid) : bool := match node_of g v with Some (NMod _) => true | _ => false end.
+Definition is_res (g : vgraph) (v : vid) : bool := match node_of g v with Some (NRes _) => true | _ => false end.
+Definition wt_val (g : vgraph) (v : vval) : bool := match v with WRef d => is_def g d | WPrim _ => true end.
+Definition wt_oval (g : vgraph) (o : option vval) : bool := match o with Some v => wt_val g v | None => true end.
+Definition wt_def (g : vgraph) (d : vdef) : bool :=
+  match d with
+  | WDRecord fs => forallb (fun kv => wt_val g (snd kv)) fs
+  | WDVariant cs => forallb (fun kv => wt_oval g (snd kv)) cs
+  | WDList v | WDFsl v _ | WDOption v => wt_val g v
+  | WDTuple l => forallb (wt_val g) l
+  | WDResult o e => wt_oval g o && wt_oval g e
+  | WDFuture o | WDStream o => wt_oval g o
+  | WDMap k v => wt_val g k && wt_val g v
+  | WDOwn r | WDBorrow r => is_res g r
+  | WDPrim _ | WDFlags _ | WDEnum _ => true
+  end.
+Definition wt_ent (g : vgraph) (e : vent) : bool :=
+  match e with
+  | EModule m => is_mod g m
+  | EFunc f => is_func g f
+  | EValue v => wt_val g v
+  | EType _ cr => match node_of g cr with Some (NMod _) | None => false | Some _ => true end
+  | EInstance i => is_inst g i
+  | EComponent c => is_comp g c
+  end.
+Fixpoint nodup_names (l : list str) : bool :=
+  match l with
+  | [] => true
+  | x :: r => negb (existsb (str_eqb x) r) && nodup_names r
+  end.
+Definition wt_items (g : vgraph) (l : list (str * vent)) : bool :=
+  forallb (fun kv => wt_ent g (snd kv)) l && nodup_names (map fst l).
+Definition wt_node (g : vgraph) (n : vnode) : bool :=
+  match n with
+  | NDef d => wt_def g d
+  | NFunc _ ps r => forallb (fun kv => wt_val g (snd kv)) ps && wt_oval g r
+  | NInst ex => wt_items g ex
+  | NComp im ex => wt_items g im && wt_items g ex
+  | NRes _ | NMod _ => true
+  end.
+Definition wt_graph_b (g : vgraph) : bool :=
+  forallb (fun np => wt_node g (fst np)) (vg_nodes g)
+  && forallb (fun kv => wt_ent g (snd kv)) (vg_imports g) && forallb (fun kv => wt_ent g (snd kv)) (vg_exports g).
+
+(** * The situation of finding F1 ([from-bytes-panics-on-instance-type-instantiated-twice]), as a predicate on the graph
+
+    The type items of the graph: (node, position, referenced, created) for every type export of an instance type and
+    every type import of a component type.  [shares_created_b]: two DIFFERENT items have the same created identifier,
+    and that identifier is aliasable (created differs from referenced; for function / instance / component types the
+    two coincide and the second item simply finds the first as its owner).  The validator makes created identifiers
+    unique per item; they are shared exactly when it COPIES an instance type (one copy per use of a type that declares a
+    resource) -- the copies keep the created identifiers of the non-resource type exports. *)
+Fixpoint items_from (v : vid) (pos : nat) (l : list (str * vent)) : list (vid * nat * vid * vid) :=
+  match l with
+  | [] => []
+  | (_, EType rf cr) :: r => (v, pos, rf, cr) :: items_from v (S pos) r
+  | _ :: r => items_from v (S pos) r
+  end.
+Fixpoint type_items_from (v : vid) (nodes : list (vnode * option vid)) : list (vid * nat * vid * vid) :=
+  match nodes with
+  | [] => []
+  | (NInst ex, _) :: r => items_from v 0%nat ex ++ type_items_from (S v) r
+  | (NComp im _, _) :: r => items_from v 0%nat im ++ type_items_from (S v) r
+  | _ :: r => type_items_from (S v) r
+  end.
+Definition type_items (g : vgraph) : list (vid * nat * vid * vid) := type_items_from 0%nat (vg_nodes g).
+Fixpoint shares_in (l : list (vid * nat * vid * vid)) : bool :=
+  match l with
+  | [] => false
+  | (_, _, rf, cr) :: r =>
+    (negb (Nat.eqb rf cr) && existsb (fun y => Nat.eqb (snd y) cr) r) || shares_in r
+  end.
+Definition shares_created_b (g : vgraph) : bool := shares_in (type_items g).
+
